@@ -23,7 +23,7 @@ Unframe == IF frame \in {"valid"} THEN (IF size <= cap THEN "content" ELSE "too-
 Call == /\ phase = "call"
         /\ \/ /\ Unframe = "content" /\ result' = "ok" /\ equal' = TRUE        \* recreate(expand(F)) = F  (C01)
            \/ /\ Unframe \in {"too-big", "not-a-frame"} /\ result' = "err" /\ equal' = FALSE
-           \/ /\ Unframe = "other-or-error" /\ result' \in {"ok", "err"} /\ equal' = FALSE
+           \/ /\ Unframe = "other-or-error" /\ result' \in {"ok", "err", "panic"} /\ equal' = FALSE
            \/ /\ Unframe = "content-or-error"
               /\ \/ (result' = "ok" /\ equal' = TRUE /\ size <= cap)
                  \/ (result' = "err" /\ equal' = FALSE)
